@@ -104,21 +104,30 @@ def run_variant(args):
 
 # stored refactorings a check cannot yet follow (documented in DESIGN.md 10.9): reported in the evidence, not failing the self-test
 KNOWN_UNDECIDED = {
-    "C17": {"set4_8": "flatten - single vmap - unflatten of the [S, A, E] successor array is outside the kernel IR's reshape vocabulary",
+    "C09": {"r6set2_5": "same"},
+    "C17": {"r6set3_5": "event x action loop replaced by one lax.scan over events with the update vmapped over actions", "r6set4_8": "one broadcast scatter-add per event",
+            "set4_8": "flatten - single vmap - unflatten of the [S, A, E] successor array is outside the kernel IR's reshape vocabulary",
             "r2set4_2": "one broadcast scatter per event (index arrays [1, A] x [S, 1] x [S, A]) instead of the event x action double loop",
             "r5set4_2": "one loop over rows laid out once as [E*A, S] (enumerate(zip(rows_by_event_and_action(..)))) instead of the event x action double loop"},
     "C02": {"r2set2_3": "history rows precomputed as a Python list and walked with enumerate(zip(rows, rows[1:])): no loop summary"},
-    "C03": {"r2set2_3": "same", "r4set4_2": "padding mask moved into a new BatchProcessor.padding_mask() method: the BatchProcessor is summarised, not interpreted"},
-    "C06": {"r4set4_2": "same"},
+    "C03": {"r6set2_5": "single-slot cache of the padding mask (`v = self._m; if v is None or v.shape != ..`): not provably a function of its validity test", "r6set4_1": "padding mask moved into BatchProcessor (summarised, not interpreted)",
+            "r2set2_3": "same", "r4set4_2": "padding mask moved into a new BatchProcessor.padding_mask() method: the BatchProcessor is summarised, not interpreted"},
+    "C06": {"r6set2_5": "same", "r6set4_1": "same",
+            "r4set4_2": "same"},
     "C08": {"r4set4_2": "same"},
     "C07": {"r2set2_3": "same"},
-    "C13": {"r5set4_1": "create_range_space fills a preallocated array from np.meshgrid views in a loop over enumerate(grids): another enumeration algorithm",
+    "C13": {"r6set3_1": "same", "r6set3_6": "same",
+            "r5set4_1": "create_range_space fills a preallocated array from np.meshgrid views in a loop over enumerate(grids): another enumeration algorithm",
             "r5set5_1": "Mirjalili delivery splits built one age class at a time by a nested comprehension instead of filtering the Cartesian product: another enumeration algorithm"},
-    "C14": {"r5set4_1": "same", "r5set5_1": "same"},
-    "C15": {"r5set4_1": "same", "r5set5_1": "same"},
-    "C16": {"r5set4_1": "same", "r5set5_1": "same"},
+    "C14": {"r6set3_3": "same", "r6set3_1": "Hendrix pu table built by loops with `continue`: no loop summary", "r6set3_6": "Mirjalili receipt splits enumerated directly by a nested comprehension: another enumeration algorithm",
+            "r5set4_1": "same", "r5set5_1": "same"},
+    "C15": {"r6set3_1": "same", "r6set3_6": "same",
+            "r5set4_1": "same", "r5set5_1": "same"},
+    "C16": {"r6set3_1": "same", "r6set3_6": "same",
+            "r5set4_1": "same", "r5set5_1": "same"},
     "C19": {"r5set4_1": "same"},
-    "C20": {"r4set3_1": "verbosity tables replaced by one IntEnum (`_Verbosity(v).name`, `_Verbosity.__members__.get(name)`): no literal table to read"},
+    "C20": {"r6set1_3": "level names looked up in a module-level MappingProxyType with a walrus: no literal table inside the method", "r6set2_3": "Verbosity IntEnum and `match level: case str()`: no literal table to read", "r6set4_2": "Verbosity IntEnum, range guard `min(Verbosity) <= v <= max(Verbosity)`: no literal bounds", "r6set3_3": "validator guard `len(x) != len(Weekday)` (an Enum's size) is outside the guard shapes the reader knows",
+            "r4set3_1": "verbosity tables replaced by one IntEnum (`_Verbosity(v).name`, `_Verbosity.__members__.get(name)`): no literal table to read"},
 }
 
 
